@@ -251,6 +251,10 @@ func (w *Walker) parseRoutingRule(ctx dae_config.IRoutingRuleContext) *RoutingRu
 		outbound = &Function{Name: literal.GetText()}
 	} else if f := outboundExpr.FunctionPrototype(); f != nil {
 		outbound = w.parseFunctionPrototype(f.(*dae_config.FunctionPrototypeContext), nil)
+		if outbound == nil {
+			// The error has been reported by parseFunctionPrototype.
+			return nil
+		}
 	} else {
 		panic("unknown outboundExpr")
 	}
